@@ -191,6 +191,23 @@ class KeyedList(Generic[ItemType, KeyType], MutableSequence, KeyedBase):  # pyli
         self._list.insert(index, item)
         self._dict[key] = item
 
+    def extend(self, values):
+        # Validate every incoming item before committing any of them, so that
+        # a rejected item does not leave a prefix of `values` behind.
+        incoming = []
+        incoming_keys = set()
+        for value in values:
+            item, key = self._validate_item(value)
+            if key in self._dict or key in incoming_keys:
+                raise ValueError(
+                    f"Item with key `{repr(key)}` already in `{type_label(self._type)}`."
+                )
+            incoming_keys.add(key)
+            incoming.append((item, key))
+        for item, key in incoming:
+            self._list.append(item)
+            self._dict[key] = item
+
     def reverse(self):
         # The mixin implementation swaps items pairwise through `__setitem__`,
         # which transiently duplicates keys. Reversing never changes the keys.
